@@ -141,7 +141,7 @@ static inline XmlDoc render_xml(const MModel& m)
     return d;
 }
 // the same model as whole-file XTA text (only what both formats can express: named locations)
-static inline std::string render_xta(const MModel& m)
+static inline std::string render_xta(const MModel& m, bool chain = false)
 {
     std::string s = m.gdecl + "\n";
     for (auto& t : m.templs) {
@@ -162,7 +162,9 @@ static inline std::string render_xta(const MModel& m)
             s += " trans\n";
             for (size_t i = 0; i < t.edges.size(); i++) {
                 auto& e = t.edges[i];
-                s += std::string(i ? ",\n  " : "  ") + (e.src_bp ? "_" + t.bps[e.src] : loc_name(t.locs[e.src])) + (edge_control(e) ? " -> " : " -u-> ") + (e.dst_bp ? "_" + t.bps[e.dst] : loc_name(t.locs[e.dst])) + " {";
+                // with `chain`, an edge that starts where the previous one started is written in the chained form ", -> target { ... }" (no probability there)
+                bool chained = chain && i > 0 && e.src == t.edges[i - 1].src && e.src_bp == t.edges[i - 1].src_bp && e.prob.empty();
+                s += std::string(i ? ",\n  " : "  ") + (chained ? "" : (e.src_bp ? "_" + t.bps[e.src] : loc_name(t.locs[e.src]))) + (edge_control(e) ? " -> " : " -u-> ") + (e.dst_bp ? "_" + t.bps[e.dst] : loc_name(t.locs[e.dst])) + " {";
                 if (!e.select.empty()) s += " select " + e.select + ";";
                 if (!e.guard.empty()) s += " guard " + e.guard + ";";
                 if (!e.sync.empty()) s += " sync " + e.sync + ";";
